@@ -3,12 +3,16 @@ Model of `layout/header_footer.go` (header/footer detection and filtering), of
 `docx/odt (*Reader).shouldExcludeParagraph` and of `pptx.isFooterPlaceholder`.
 Core Lean only. Coordinates are `Rat`, strings are UTF-8 byte lists (`List Nat`).
 
-The model follows the code as it is after the two C11 fixes:
+The model follows the code as it is after the three C11 fixes:
 * `FilterFragments` measures the margin bands with the same reference bounds and
   the same scaling condition as `extractCandidates` (`bands` below is used by both);
 * a region remembers the digit-normalised text of its group (`Region.pattern`) and
   `(*HeaderFooterRegion).matches` accepts fragments whose normalised text equals it
-  when the region is a page-number region.
+  when the region is a page-number region;
+* on a character-level page `FilterFragments` assembles the glyph fragments into lines
+  exactly as `preprocessPages` does for detection, judges every assembled LINE like a
+  word-level fragment and removes the glyphs of the lines that match (`removedLines`);
+  the position-only filter it replaces is kept as `filterFragmentsOld` (finding F8).
 -/
 namespace Tabula.HF
 
@@ -394,17 +398,62 @@ def regionMatches (r : Region) (fragText : Str) : Bool :=
     (r.isPageNumber && !r.pattern.isEmpty && normalize (trimSpace fragText) == r.pattern)
 
 /-- one iteration of the header (resp. footer) loop of `isInHeaderFooter` -/
-def regionHits (idx : Int) (inBand charLevel : Bool) (f : Frag) (r : Region) : Bool :=
+def regionHits (idx : Int) (inBand : Bool) (f : Frag) (r : Region) : Bool :=
+  r.pages.contains idx && inBand && regionMatches r f.text
+
+/-- `isInHeaderFooter`: `f` is a fragment of a word-level page or an assembled line of a
+character-level page -/
+def isInHeaderFooter (res : Result) (idx : Int) (b : Bands) (f : Frag) : Bool :=
+  res.headers.any (regionHits idx (inTop b f) f) ||
+    res.footers.any (regionHits idx (inBottom b f) f)
+
+/-- the line groups of a character-level page (`groupCharacterLines`; the second sort, by X
+inside each line, is part of `assembleLine` in this model and immaterial for membership) -/
+def charLines (fs : List Frag) : List (List Frag) := groupLines (sortBy lineLess fs) []
+
+/-- the assembled line of this group is judged a header or footer (`judged[i]` handed to
+`isInHeaderFooter` in the character-level branch of `FilterFragments`) -/
+def lineRemoved (res : Result) (idx : Int) (b : Bands) (g : List Frag) : Bool :=
+  match assembleLine g with
+  | some l => isInHeaderFooter res idx b l
+  | none => false
+
+/-- the line groups of a character-level page whose glyphs `FilterFragments` removes; the
+bands are measured on the assembled lines (`judged`), as `extractCandidates` measures them
+on the preprocessed page -/
+def removedLines (res : Result) (idx : Int) (fs : List Frag) (pageHeight : Rat) : List (List Frag) :=
+  (charLines fs).filter (lineRemoved res idx (bands res.cfg (assembleFragmentsIntoLines fs) pageHeight))
+
+/-- `(*HeaderFooterResult).FilterFragments`. The code marks the glyphs of a removed line by
+index; the model asks whether the glyph occurs in a removed line. Both agree when the glyphs
+of a character-level page are pairwise different, which the sort's comparator being a strict
+total order (assumed for character-level pages, see `sortBy`) implies. -/
+def filterFragments (res : Result) (idx : Int) (fs : List Frag) (pageHeight : Rat) : List Frag :=
+  if isCharacterLevel fs then
+    let gone := removedLines res idx fs pageHeight
+    fs.filter fun f => !(gone.any fun g => g.contains f)
+  else
+    fs.filter fun f => !isInHeaderFooter res idx (bands res.cfg fs pageHeight) f
+
+/-- the test `FilterFragments` applies to one fragment of the page (see `filterFragments_eq`) -/
+def isRemoved (res : Result) (idx : Int) (fs : List Frag) (pageHeight : Rat) (f : Frag) : Bool :=
+  if isCharacterLevel fs then (removedLines res idx fs pageHeight).any fun g => g.contains f
+  else isInHeaderFooter res idx (bands res.cfg fs pageHeight) f
+
+/-! ### the filter before the repair of F8 (kept for the record: `Props/C11.lean`,
+`charlevel_position_only_pinned_counterexample`; nothing else uses it) -/
+
+def regionHitsOld (idx : Int) (inBand charLevel : Bool) (f : Frag) (r : Region) : Bool :=
   r.pages.contains idx && inBand && (charLevel || regionMatches r f.text)
 
-/-- `isInHeaderFooter` -/
-def isInHeaderFooter (res : Result) (idx : Int) (b : Bands) (charLevel : Bool) (f : Frag) : Bool :=
-  res.headers.any (regionHits idx (inTop b f) charLevel f) ||
-    res.footers.any (regionHits idx (inBottom b f) charLevel f)
+def isInHeaderFooterOld (res : Result) (idx : Int) (b : Bands) (charLevel : Bool) (f : Frag) : Bool :=
+  res.headers.any (regionHitsOld idx (inTop b f) charLevel f) ||
+    res.footers.any (regionHitsOld idx (inBottom b f) charLevel f)
 
-/-- `(*HeaderFooterResult).FilterFragments` -/
-def filterFragments (res : Result) (idx : Int) (fs : List Frag) (pageHeight : Rat) : List Frag :=
-  fs.filter fun f => !isInHeaderFooter res idx (bands res.cfg fs pageHeight) (isCharacterLevel fs) f
+/-- `FilterFragments` as it was: on a character-level page every glyph in the band of a page
+that a region lists went, whatever line it belonged to -/
+def filterFragmentsOld (res : Result) (idx : Int) (fs : List Frag) (pageHeight : Rat) : List Frag :=
+  fs.filter fun f => !isInHeaderFooterOld res idx (bands res.cfg fs pageHeight) (isCharacterLevel fs) f
 
 /-- what `Extractor` does with exclusion switched on: detect on all pages, filter each requested page -/
 def excludePage (cfg : Config) (all : List Page) (p : Page) : List Frag :=
